@@ -65,9 +65,17 @@ REJECT_LISTS = {"invalid", "invalid_node", "invalid_nodes"}
 ACCEPT_CALLS = r"(Vec::push$|BufferedDatabaseWriter::send$|RoomAuthorisations::add_room$|VecDeque::push_back$)"
 
 
+FILTER_FNS = ("AuthorisationService::process_message::{closure#0}", "RoomAuthorisations::validate_edge_deletions",
+              "RoomAuthorisations::validate_node_deletions")
+
+
 def refusal_region(body, call_block, false_target):
-    """blocks reachable from the refusing edge without re-entering the enclosing loop header"""
-    hdr = enclosing_loop_header(body, call_block)
+    """blocks reachable from the refusing edge.  In the filter loops (FILTER_FNS: a row is accepted by being
+    pushed to a list) `continue` is a refusal, so the region stops at the enclosing loop header; everywhere else
+    going on with the next iteration means the entry was accepted, so the region is not cut."""
+    hdr = None
+    if any(body.id.endswith(f) for f in FILTER_FNS):
+        hdr = enclosing_loop_header(body, call_block)
     avoid = {hdr} if hdr is not None else set()
     return body.reachable(false_target, avoid_blocks=avoid), hdr
 
